@@ -371,7 +371,7 @@ func boundaryCases(thorough bool) []*Case {
 	// limits in the parser these overflow Go's 1 GB stack (fatal error, not a panic).
 	huge := []int{800000} // with quickMaxStack (worker.go)
 	if thorough {
-		huge = []int{300000, 1000000, 3000000, 6000000}
+		huge = []int{1000000, 3000000}
 	}
 	for _, d := range huge {
 		add("huge-parens", inPlain("    i = "+rep("(", d)+"1"+rep(")", d)))
